@@ -67,6 +67,19 @@ _RE_SIM = re.compile(r"The number of states generated: (\d+)")
 _RE_COV = re.compile(r"^<(\w+) line \d+, col \d+ to line \d+, col \d+ of module \w+>: (\d+):(\d+)", re.M)
 
 
+_tlc_counter = 0
+_tlc_lock = __import__("threading").Lock()
+
+
+def tlc_parallel(jobs: Sequence[Tuple[str, str, Dict[str, Any]]], threads: int = 8) -> List["TlcResult"]:
+    """Run several TLC invocations concurrently (each its own JVM); results in job order."""
+    from concurrent.futures import ThreadPoolExecutor
+
+    with ThreadPoolExecutor(max_workers=threads) as ex:
+        futs = [ex.submit(tlc, m, c, **kw) for m, c, kw in jobs]
+        return [f.result() for f in futs]
+
+
 def tlc(
     module: str,
     cfg: str,
@@ -88,7 +101,10 @@ def tlc(
     to on_record or collected in result.records.
     """
     sc = scratch()
-    tag = f"{module}-{os.getpid()}-{int(time.time() * 1000) % 10**9}"
+    global _tlc_counter
+    with _tlc_lock:
+        _tlc_counter += 1
+        tag = f"{module}-{os.getpid()}-{_tlc_counter}"
     cfg_path = sc / f"{tag}.cfg"
     cfg_path.write_text(cfg)
     meta = sc / f"meta-{tag}"
